@@ -117,7 +117,7 @@ CLAIMED["C04"] = (T_WP + " (tree node API, owner recursion, split-ring owners); 
   "Owner correctness, containment and equality with the flat result are not decided by proof: a sampled stand-in (labelled bounded) compares tree and flat results and checks orientation/level parity and containment on 16 000 (quick) / 480 000 (thorough) operations with nested and random polygons. Without touching or sliver polygons it finds no failure; with them it fails in about 0.4% of the operations (known finding F38, upstream's vertex-count / bounding-box-midpoint ownership test), and 3 operations differ by a zero-area polygon (F39).",
   "Heap model per struct field; tree depth counter treated as a mathematical integer.",
   "DESIGN.md section 4, C04")
-CLAIMED["C05"] = (T_WP + " (bookkeeping and join-geometry clauses; the containment statement is not decided)",
+CLAIMED["C05"] = (T_WP + " (bookkeeping, join-geometry clauses, index safety of the join constructors); sampled bounded stand-in for the containment clauses",
   "Proved for all inputs: StripDuplicates returns the path without consecutive duplicates (and without a closing duplicate for closed paths), keeps first/last points; NewGroup stores exactly the stripped paths with the requested join/end type; "
   "ClipperOffset.AddPaths / NewClipperOffset wire their arguments; |delta| < 0.5 copies every group path to the solution one by one; the effective delta is +/-delta according to the detected orientation and the final union runs with the paired fill rule and reverse flag; "
   "getUnitNormal is a unit vector perpendicular to the segment on the right-hand side; buildNormals computes one normal per segment incl. the closing one; getPerpendic is within 0.5 of pt + delta*normal; "
